@@ -26,7 +26,7 @@
   * `Rectangle::{intersection, translate, contains, points}`, `==` on rectangles, `-p`, `p + q` are the hand
     model's `EG.Rect` / `EG.Pt` functions. Their own tie to the Rust text is C16's (EG/Props/C16/Generated*.lean:
     regenerated bodies = these functions, `intersection` / `contains` under `FitsI32`; `Points` iterator).
-  * `Iterator::next` / `Iterator::nth(n)` on an iterator that is a list: `iter_next` takes the head, `iter_nth n`
+  * `Iterator::next` / `Iterator::nth(n)` on an iterator that is a list: `listiter_next` takes the head, `listiter_nth n`
     drops `n` items and takes the next (the default `nth`: `advance_by(n).ok()?; next()`; a list that is too short
     is left empty and gives `None`). Both return the item and the rest (the translator rebinds the receiver).
   * An iterator DEFINED IN THE CRATE with a stateful `next` (`iterator::contiguous::Cropped`, the colour iterator
@@ -45,8 +45,7 @@ import EG.Model.CroppedIter
 namespace EG.AdaptSrcPrelude
 open EG EG.RectSrcPrelude
 
-abbrev Color := EG.Color
-abbrev Call := EG.Call
+-- `Color` and `Call` in the generated text are `EG.Color` (= `Nat`) and `EG.Call` of EG/Model/Target.lean
 
 /-! ### `Pixel`, tuples, `PhantomData` -/
 
@@ -70,12 +69,12 @@ abbrev core_iter_repeat {α : Type} (fuel : Nat) (c : α) : List α := List.repl
 /-- an iterator whose `next` is `self.iter.next().map(f)`. -/
 abbrev iter_of_next_map {α β : Type} (inner : List α) (f : α → β) : List β := inner.map f
 /-- `Iterator::next` of an iterator that is a list: the item and the rest. -/
-abbrev iter_next {α : Type} (l : List α) : Option α × List α :=
+abbrev listiter_next {α : Type} (l : List α) : Option α × List α :=
   match l with
   | [] => (none, [])
   | a :: t => (some a, t)
 /-- `Iterator::nth(n)`: skip `n` items, then `next`. -/
-abbrev iter_nth {α : Type} (l : List α) (n : Nat) : Option α × List α := iter_next (l.drop n)
+abbrev listiter_nth {α : Type} (l : List α) (n : Nat) : Option α × List α := listiter_next (l.drop n)
 /-- The items a `for` loop sees from an iterator given by its `next` (value, updated state), on explicit fuel. -/
 def iter_collect_fuel {σ α : Type} (next : σ → Option α × σ) : Nat → σ → List α
   | 0, _ => []
@@ -111,7 +110,7 @@ abbrev Rectangle_points (r : Rectangle) : List Point := r.points
 /-- derived `PartialEq` of `Rectangle` -/
 abbrev Rectangle_eq (a b : Rectangle) : Bool := decide (a = b)
 abbrev Rectangle_ne (a b : Rectangle) : Bool := decide (a ≠ b)
-abbrev Point_zero : Point := Pt.zero
+abbrev point_zero : Point := Pt.zero
 abbrev Point_neg (p : Point) : Point := -p
 abbrev Point_add (p q : Point) : Point := p + q
 abbrev Point_sub (p q : Point) : Point := p - q
